@@ -275,7 +275,72 @@ func c09Check(in []byte, kind byte, failAt int, offSel, errKind int64, nested bo
 	return true, true, nil
 }
 
+// chainHandler is a recursive handler: on a container member it starts a nested traversal
+// (same Buffer) with itself as handler, and whatever that returns it answers with an error
+// value of its own for this level - the way code that adds context to errors behaves. Every
+// traversal of the chain must return exactly the value its handler returned.
+type chainHandler struct {
+	buf      *rjson.Buffer
+	level    int
+	returned map[int]error
+	bad      error
+}
+
+func (h *chainHandler) handle(data []byte) (int, error) {
+	lvl := h.level
+	var mine error = &customErr{code: lvl}
+	if len(data) == 0 || (data[0] != '[' && data[0] != '{') {
+		h.returned[lvl] = mine
+		return 0, mine // the innermost member: fail here
+	}
+	h.level++
+	var p int
+	var err error
+	if data[0] == '[' {
+		p, err = rjson.HandleArrayValues(data, h, h.buf)
+	} else {
+		p, err = rjson.HandleObjectValues(data, h, h.buf)
+	}
+	h.level--
+	if want := h.returned[lvl+1]; h.bad == nil && (want == nil || err != want) {
+		h.bad = fmt.Errorf("the traversal started at nesting level %d returned %v; its handler had returned %v", lvl+1, err, want)
+	}
+	h.returned[lvl] = mine
+	return p, mine
+}
+
+func (h *chainHandler) HandleArrayValue(d []byte) (int, error)     { return h.handle(d) }
+func (h *chainHandler) HandleObjectValue(_, d []byte) (int, error) { return h.handle(d) }
+
+// c09Chain: a document nested depth levels deep, walked by a chainHandler.
+func c09Chain(in []byte, shared bool) error {
+	h := &chainHandler{returned: map[int]error{}}
+	if shared {
+		h.buf = &rjson.Buffer{}
+	}
+	i := ref.SkipWS(in, 0)
+	if i >= len(in) {
+		return nil
+	}
+	var err error
+	if in[i] == '[' {
+		_, err = rjson.HandleArrayValues(in, h, h.buf)
+	} else {
+		_, err = rjson.HandleObjectValues(in, h, h.buf)
+	}
+	if h.bad != nil {
+		return h.bad
+	}
+	if want := h.returned[0]; want != nil && err != want {
+		return fmt.Errorf("the outermost traversal returned %v; its handler had returned %v", err, want)
+	}
+	return nil
+}
+
 func CheckC09(c *core.Case) error {
+	if c.Kind == "chain" {
+		return c09Chain([]byte(c.In), len(c.Ints) > 0 && c.Ints[0] != 0)
+	}
 	if len(c.Ints) < 7 {
 		return fmt.Errorf("bad case: need 7 ints")
 	}
